@@ -11,8 +11,8 @@
       parent object) -- std::set<ParentInfo> compares the BookNode pointers, so the address of a
       node is an input of the model (given by the harness when the node is created);
     - ints are [Z] without overflow (the harness runs with asserts on; values stay far below 2^31);
-      [bk_err] records the two ways a run leaves the modelled fragment: 1 = fuel exhausted,
-      2 = an [assert] of the C++ code would fail;
+      [bk_err] records the ways a run leaves the modelled fragment: 1 = fuel exhausted,
+      2 = an [assert] of the C++ code would fail, 3 = a path error would reach INT_MAX;
     - the chess part (which moves connect which positions) is an input of the operations: the
       harness computes it with the real move generator.
 
@@ -63,6 +63,7 @@ Record book := mkBook {
 
 Definition ERR_FUEL : N := 1%N.
 Definition ERR_ASSERT : N := 2%N.
+Definition ERR_OVERFLOW : N := 3%N.
 
 Definition default_info : ninfo := mkInfo 0 0 INVALID_SCORE 0 ST_EMPTY.
 Definition default_scores : scores := mkScores INVALID_SCORE INVALID_SCORE INVALID_SCORE INVALID_SCORE INVALID_SCORE.
@@ -227,7 +228,9 @@ Definition peStep (sc : nmap scores) (me : scores) (oddDepth : bool) (acc : Z * 
     let err' := if delta <? 0 then N.max err ERR_ASSERT else err in
     let ew := if oddDepth then s_pew ps + delta else s_pew ps in
     let eb := if oddDepth then s_peb ps else s_peb ps + delta in
-    (Z.min pw ew, Z.min pb eb, err').
+    (* the C++ ints would overflow / collide with the INT_MAX sentinel *)
+    let err'' := if (INT_MAX <=? ew) || (INT_MAX <=? eb) then N.max err' ERR_OVERFLOW else err' in
+    (Z.min pw ew, Z.min pb eb, err'').
 
 (** returns the new score map, "white or black path error changed", error code *)
 Definition computePathError (g : book) (sc : nmap scores) (n : N) : nmap scores * bool * N :=
